@@ -433,7 +433,9 @@ def run_kani_group(scratch, crate, cfg, obs, jobs, solver_override=None, extra_t
                 if m.crate == crate and cfg in m.configs:
                     cfgd = m.configs[cfg]
     tdir = scratch.root / f"target-{crate}-{cfg}{tag}"
-    timeout = extra_timeout or max(int(o["timeout"]) for o in obs)
+    # floor of 20 minutes: the quick tier only contains obligations measured at <= 200 s, the floor is slack for a slower or
+    # busier machine (a time-out is "undecided", which must not happen on an unchanged tree just because of load)
+    timeout = extra_timeout or max(1200, max(int(o["timeout"]) for o in obs))
     cmd = ["cargo", "kani", "-p", pkg_name(crate), "-Z", "function-contracts", "--no-assert-contracts", "--no-assertion-reach-checks", "-Z", "stubbing", "-Z", "unstable-options",
            "--harness-timeout", str(timeout), "-j", str(max(1, jobs)), "--output-format=terse",
            "--target-dir", str(tdir)]
